@@ -159,6 +159,9 @@ func checkC10(c *Ctx) {
 						ss = append(ss, st6)
 					} else if c.rng.chance(1, 4) {
 						ss = append(ss, mkStanza(6))
+					} else if c.rng.chance(1, 2) {
+						ty := []string{"grease", "x-grease", "scrypt-grease", "grease-x", "stub", "a-grease"}[c.rng.intn(6)]
+						ss = append(ss, &age.Stanza{Type: ty, Args: []string{"x"}, Body: c.rng.bytes(c.rng.intn(40))})
 					} else {
 						ss = append(ss, greaseStanza(c.rng))
 					}
@@ -180,6 +183,29 @@ func checkC10(c *Ctx) {
 				c.count("stanza-position")
 			}
 		}
+	}
+	// (b3) one identity VALUE across calls: a successful Unwrap must not change what later calls accept
+	for _, max := range []int{6, 9} {
+		id, _ := age.NewScryptIdentity(pass)
+		id.SetMaxWorkFactor(max)
+		good := mkStanza(6)
+		first, _ := unwrap(id, []*age.Stanza{good})
+		c.Oracle("right-passphrase-within-limit-opens", first == lst(":ok", hx(fileKey)), "scrypt-roundtrip", map[string]interface{}{"max": max}, "the right passphrase within the limit did not open the stanza: "+first)
+		for _, w := range []string{"06", "+6", "0", "00", "5", "7", "16", "30", "9223372036854775808", "18446744073709551622", "6"} {
+			s := &age.Stanza{Type: good.Type, Args: []string{good.Args[0], w}, Body: good.Body}
+			impl, _ := unwrap(id, []*age.Stanza{s})
+			model, _ := modelUnwrap(pass, max, []*age.Stanza{s})
+			in := map[string]interface{}{"max": max, "work_factor": w, "history": "after a successful Unwrap of the same salt on the same identity value"}
+			c.Compare("ScryptIdentity.Unwrap (reused value)~Recipients.unwrap", in, impl, model)
+			v, canon := smallInt(w)
+			if !(canon && v >= 1 && v <= max) {
+				c.Oracle("bad-work-factor-rejected-without-derivation", impl == "(:err :fatal)", "scrypt-work-unbounded-after-history", in, "work factor "+w+" accepted or not fatal on a reused identity: "+impl)
+			}
+			c.count("work-factor-history")
+		}
+		id.SetMaxWorkFactor(3)
+		impl, _ := unwrap(id, []*age.Stanza{good})
+		c.Oracle("bad-work-factor-rejected-without-derivation", impl == "(:err :fatal)", "scrypt-max-lowered-ignored", map[string]interface{}{"max": 3, "work_factor": "6", "history": "SetMaxWorkFactor lowered after a successful Unwrap"}, "a work factor above the lowered maximum was accepted: "+impl)
 	}
 	// (b2) work-factor strings
 	for _, max := range []int{1, 3, 6, 9, 12} {
